@@ -68,10 +68,10 @@ func perturbHeap(n int) {
 }
 
 type goldenStore struct {
-	dir string
-	bin string
-	mu  sync.Mutex
-	mem map[string]*Golden
+	dir      string
+	bin      string
+	mu       sync.Mutex
+	mem      map[string]*Golden
 	computed int
 }
 
